@@ -321,6 +321,24 @@ func cmdCheck(args []string) int {
 	}
 	close(jobs)
 	wg.Wait()
+	// second chance, one at a time (no contention between obligations) and with twice the time, for obligations that
+	// ended without an answer: a machine that is busy with other checks must not turn a proof into an alarm. At most
+	// six are retried (more than that is not a load problem); an answer "sat" is never retried.
+	retried := 0
+	for _, o := range allObs {
+		if o.expect == "sat" || o.Result == nil || retried >= 6 {
+			continue
+		}
+		if st := o.Result.Status; st == "timeout" || st == "unknown" || st == "error" {
+			retried++
+			first := o.Result
+			o.Result = solve(o.script(false), 2*secs, thorough)
+			o.Result.Ms += first.Ms
+			if o.Result.Status == "unsat" {
+				fmt.Printf("NOTE %s: no answer within %ds under load, discharged on the uncontended retry (%s, %dms)\n", o.Name, secs, o.Result.Solver, o.Result.Ms)
+			}
+		}
+	}
 
 	nOb, nDis, nVac := 0, 0, 0
 	deadReturns := 0
